@@ -162,6 +162,13 @@ def token_cases(draw):
         out.append("#define ZFST(a, ...) a\n#define ZID(a) [a]\n#define ZTWO(a, b) <a|b>\n#define ZPAIR 2, 40\n#define ZONE 1\n#define ZNONE\n"
                    "#define ZCL )\n#define ZOPF ZFST(1 +\n#define ZOPI ZID(1 +\n#define ZOPT ZTWO(3 ZNONE\n#define ZOPN ZID\n#define ZOPV ZFST(ZPAIR\n"
                    + ("" if strict else "#define ZSTR(x) #x x\n#define ZOPS ZSTR(p\n"))
+        # parameters that are ONLY stringized: their arguments are not macro-expanded at all (6.10.3.1p1), also when they
+        # contain invocations of function-like macros (the recorded finding concerns parameters used both ways)
+        out.append("#define ZS(x) #x\n#define ZV(...) #__VA_ARGS__\n#define ZC(c, d) chk(#c, d)\n#define ZW(a) #a #a")
+        sargs = ["ZID(7)", "ZTWO(1, 2) + 3", "ZID (7)", "ZFST(1)", "ZFST(1, 2, 3)", "ZONE ZID(ZONE)", "ZID(ZID(1))", "ZNONE ZID()", "ZTWO(1)", "ZS(ZID(2))"]
+        for _ in range(draw(st.integers(1, 4))):
+            a1 = draw(st.sampled_from(sargs))
+            out.append(draw(st.sampled_from(["ZS(%s) ;", "ZV(%s) ;", "ZV(%s, ZID(3)) ;", "ZC(%s, ZID(4)) ;", "ZW(%s) ;", "ZS( %s ) ;"])) % a1)
         tails = ["ZPAIR, 9)", "ZONE)", "ZPAIR)", "ZONE, ZPAIR)", ", ZPAIR)", "ZNONE, ZNONE ZONE)", "(ZPAIR))", "ZCL", "ZONE ZCL", ", ZONE ZCL ZCL", "ZNONE ) ZONE"]
         heads = ["ZOPF", "ZOPI", "ZOPT", "ZOPV", "ZOPN (", "ZOPN ZNONE ("] + ([] if strict else ["ZOPS"])
         for _ in range(draw(st.integers(1, 5))):
